@@ -69,10 +69,11 @@ def select__intersect_and_except_operators(self: XPathToken, context: ta.Context
     if context is None:
         raise self.missing_context()
 
-    s1, s2 = set(self[0].select(copy(context))), set(self[1].select(copy(context)))
-    if any(not isinstance(x, XPathNode) for x in s1) \
-            or any(not isinstance(x, XPathNode) for x in s2):
+    operands = list(self[0].select(copy(context))), list(self[1].select(copy(context)))
+    if any(not isinstance(x, XPathNode) for x in operands[0]) \
+            or any(not isinstance(x, XPathNode) for x in operands[1]):
         raise self.error('XPTY0004', 'only XPath nodes are allowed')
+    s1, s2 = set(operands[0]), set(operands[1])
 
     if self.symbol == 'except':
         yield from cast(list[XPathNode], sorted(s1 - s2, key=node_position))
